@@ -41,19 +41,24 @@ type ClientInfo struct {
 var Clients = []ClientInfo{
 	{ID: "web", Secret: "web-secret", Redirect: "https://web.example.com/cb", Auth: "AMBasic"},
 	{ID: "web2", Secret: "web2-secret", Redirect: "https://web2.example.com/cb", Auth: "AMPost", JWT: true},
-	// public clients: the storage holds a value no request carries, so that a client without a
-	// registered secret never passes AuthorizeClientIDSecret (not even with an empty secret)
+	// clients without a secret (public, private_key_jwt): what the storage holds for them is a
+	// dimension of the world (World.Secretless): the empty string, compared plainly (the example
+	// storage: "" == "" passes Storage.AuthorizeClientIDSecret), or a value no request carries
 	{ID: "native", Secret: NoSecret, Redirect: "http://127.0.0.1/cb", Auth: "AMNone"},
 	{ID: "spa", Secret: NoSecret, Redirect: "https://spa.example.com/cb", Auth: "AMNone", JWT: true},
 	{ID: "webx", Secret: "webx-secret", Redirect: "https://webx.example.com/cb", Auth: "AMBasic", Expired: true},
 	{ID: "web2x", Secret: "web2x-secret", Redirect: "https://web2x.example.com/cb", Auth: "AMPost", JWT: true, Expired: true},
-	{ID: "pkjwt", Redirect: "https://pk.example.com/cb", Auth: "AMPkjwt"},                                                           // authenticates by client assertion only
+	{ID: "pkjwt", Secret: NoSecret, Redirect: "https://pk.example.com/cb", Auth: "AMPkjwt"},                                         // authenticates by client assertion only
 	{ID: "webnr", Secret: "webnr-secret", Redirect: "https://webnr.example.com/cb", Auth: "AMBasic", NoRefresh: true},               // token exchange without refresh_token grant
 	{ID: "web2nx", Secret: "web2nx-secret", Redirect: "https://web2nx.example.com/cb", Auth: "AMPost", JWT: true, NoExchange: true}, // no token-exchange grant
 }
 
-// NoSecret is what the store holds as secret of a public client.
+// NoSecret marks a client without a secret; what the store holds for it is World.Secretless.
 const NoSecret = "~no-secret-registered~"
+
+// Secretless policies of a storage: "" (plain comparison with an empty stored secret) or the
+// NoSecret value itself (never matches a request).
+var secretlessPolicies = []string{"", "", NoSecret}
 
 func ClientByID(id string) *ClientInfo {
 	for i := range Clients {
@@ -64,10 +69,18 @@ func ClientByID(id string) *ClientInfo {
 	return nil
 }
 
-func ClientsTerm() string {
+// StoredSecret: the secret the world's storage holds for client c.
+func (w *World) StoredSecret(c ClientInfo) string {
+	if c.Secret == NoSecret {
+		return w.Secretless
+	}
+	return c.Secret
+}
+
+func (w *World) ClientsTerm() string {
 	var items []string
 	for _, c := range Clients {
-		items = append(items, emit.Ctor("Client", emit.Str(c.ID), emit.Str(c.Secret), c.Auth, emit.Bool(c.JWT), emit.Bool(c.Expired), emit.Bool(!c.NoRefresh), emit.Bool(!c.NoExchange)))
+		items = append(items, emit.Ctor("Client", emit.Str(c.ID), emit.Str(w.StoredSecret(c)), c.Auth, emit.Bool(c.JWT), emit.Bool(c.Expired), emit.Bool(!c.NoRefresh), emit.Bool(!c.NoExchange)))
 	}
 	return emit.List(items)
 }
@@ -108,6 +121,9 @@ type World struct {
 	multi   bool // requests roam over the hosts
 	outages bool // the key storage fails now and then
 	Policy  refstore.TEPolicy
+	// what the storage holds as secret of clients registered without one (public, private_key_jwt)
+	Secretless string
+	Skew       time.Duration // ClockSkew of every client
 }
 
 func (w *World) Issuer(h int) string { return "https://" + w.Hosts[h] }
@@ -203,12 +219,18 @@ func NewWorld(r drv.Rand) *World {
 		st.Clients[c.ID] = &refstore.Client{ID: c.ID, Secret: c.Secret, Redirects: []string{c.Redirect},
 			App: op.ApplicationTypeWeb, Auth: am, RespTypes: rts, Grants: grants, ATType: at}
 	}
+	w := &World{St: st, R: r, Tags: map[string]bool{}, ver: "verifier-verifier-verifier-verifier-verifier-123", KeysUp: true}
+	w.Secretless = drv.Pick(r, secretlessPolicies)
+	if w.Secretless == "" {
+		w.tag("secretless=stored-empty")
+	} else {
+		w.tag("secretless=stored-unmatchable")
+	}
 	for _, c := range Clients {
-		if c.Auth == "AMNone" {
-			st.Clients[c.ID].Secret = c.Secret
+		if c.Secret == NoSecret {
+			st.Clients[c.ID].Secret = w.Secretless
 		}
 	}
-	w := &World{St: st, R: r, Tags: map[string]bool{}, ver: "verifier-verifier-verifier-verifier-verifier-123", KeysUp: true}
 	// half of the worlds: a provider that derives its issuer from the request host and serves
 	// several tenants; the others: one static issuer
 	// the storage's token-exchange policy: refstore's own in most worlds
@@ -229,10 +251,25 @@ func NewWorld(r drv.Rand) *World {
 		}
 		w.tag("tepolicy=variant")
 	}
-	storage := st.AsStorageTEPolicy(w.Policy)
-	if r.Bool() { // optional storage interfaces as an environment dimension
-		storage = st.AsStorageTEPolicyFromRequest(w.Policy)
+	// optional storage interfaces as environment dimensions
+	fromRequest := r.Bool()
+	if fromRequest {
 		w.tag("storage=+CanGetPrivateClaimsFromRequest")
+	}
+	if r.Bool() { // the storage verifies third-party tokens, with a verdict per role
+		w.Policy.Verifier = true
+		w.tag("storage=+TokenExchangeTokensVerifier")
+	}
+	storage := st.AsStorageTEWith(w.Policy, fromRequest)
+	// clock skew the clients are registered with
+	if r.Chance(1, 3) {
+		w.Skew = 30 * time.Second
+		w.tag("skew=30s")
+	} else {
+		w.tag("skew=0")
+	}
+	for _, c := range st.Clients {
+		c.Skew = w.Skew
 	}
 	var err error
 	if r.Bool() {
@@ -309,6 +346,9 @@ func (w *World) TokTerm(t *Tok) string {
 		d := t.jwt
 		return emit.Ctor("PJwt", emit.Nat(w.issIndex(d.iss)), emit.Bool(d.sigOK), emit.Bool(d.expired), SidTerm(d.jti), emit.Str(d.sub), emit.Str(d.azp))
 	}
+	if class, sub, ok := refstore.ParseExtToken(t.S); ok {
+		return emit.Ctor("PExt", map[byte]string{'S': "ESubj", 'A': "EActor", 'B': "EBoth", 'N': "ENone"}[class], emit.Str(sub))
+	}
 	return emit.Ctor("PRaw", SidTerm(t.S))
 }
 
@@ -316,6 +356,8 @@ type Cred struct {
 	Kind    string // none | basic | post | both | assert
 	ID, Sec string // basic / post: the credential; assert: ID = issuer of the assertion, Sec = variant (good | wrong-key | wrong-aud)
 	FormID  string // both / assert: a client_id sent in the form along with the credential
+	// post with Sec == "": send client_secret= (present, empty) instead of leaving it out
+	EmptyParam bool
 }
 
 // pkjwtKey is the key opfix.NewStd registers for client "pkjwt" (kid k1).
@@ -371,7 +413,7 @@ func (c Cred) apply(form url.Values, aud string) []string {
 		return []string{c.ID, c.Sec}
 	case "post":
 		form.Set("client_id", c.ID)
-		if c.Sec != "" {
+		if c.Sec != "" || c.EmptyParam {
 			form.Set("client_secret", c.Sec)
 		}
 	case "both":
@@ -532,6 +574,36 @@ func descOf(p map[string]any, sigOK bool) *jwtDesc {
 	return d
 }
 
+// lifeTerm: what a decoded JWT of an exchange response says about its own lifetime - is it
+// expired right now (same margin as for presented tokens), and is exp - iat the lifetime its
+// client is registered with (ID token: IDTokenLifetime; access token: the storage's access-token
+// lifetime), up to the clock skew the library adds (exp + skew, iat - skew).
+func (w *World) lifeTerm(p map[string]any, client string, idToken bool) string {
+	exp, _ := p["exp"].(float64)
+	iat, _ := p["iat"].(float64)
+	expired := int64(exp) <= time.Now().Unix()+5
+	life := 5 * time.Minute
+	if c := w.St.Clients[client]; c != nil {
+		if idToken {
+			life = time.Hour
+			if c.IDLife != 0 {
+				life = c.IDLife
+			}
+		} else if c.ATLife != 0 {
+			life = c.ATLife
+		}
+	}
+	got, want, skew := int64(exp)-int64(iat), int64(life/time.Second), int64(w.Skew/time.Second)
+	aslife := got >= want-2 && got <= want+2*skew+2
+	return emit.Ctor("TLife", emit.Bool(expired), emit.Bool(aslife))
+}
+
+// ExtTok: a third-party token (refstore.ExtVerifier's format) vouched for as subject only ('S'),
+// actor only ('A'), both ('B') or not at all ('N').
+func (w *World) ExtTok(class byte, sub string) *Tok {
+	return &Tok{S: refstore.ExtToken(class, sub), Kind: "ext-" + string(class), Sub: sub}
+}
+
 func (w *World) UserInfo(r opfix.Router, t *Tok) {
 	w.begin(false)
 	in := emit.Ctor("UserInfo", RouterTerm(r), w.TokTerm(t))
@@ -678,7 +750,7 @@ func (w *World) Exchange(r opfix.Router, x Exch) {
 		case issued == "TId":
 			if p := opfix.JWTPayload(at); p != nil {
 				d := descOf(p, true)
-				access = emit.Ctor("XIdTok", emit.Str(d.sub), emit.Str(d.azp))
+				access = emit.Ctor("XIdTok", emit.Str(d.sub), emit.Str(d.azp), w.lifeTerm(p, client, true))
 				w.Pool = append(w.Pool, &Tok{S: at, Kind: "idtok", Client: client, Sub: d.sub, jwt: d})
 			} else {
 				access = "XOther"
@@ -698,7 +770,7 @@ func (w *World) Exchange(r opfix.Router, x Exch) {
 				if a, ok := p["act"].(map[string]any); ok {
 					act, _ = a["sub"].(string)
 				}
-				access = emit.Ctor("XJwt", SidTerm(id), emit.Str(d.sub), emit.Str(act))
+				access = emit.Ctor("XJwt", SidTerm(id), emit.Str(d.sub), emit.Str(act), w.lifeTerm(p, client, false))
 				w.Pool = append(w.Pool, &Tok{S: at, Kind: "jwt-at", Client: client, Sub: d.sub, jwt: d})
 			} else {
 				access = "XOther"
@@ -855,7 +927,7 @@ func (w *World) TamperJWT(t *Tok) *Tok {
 // ---------------------------------------------------------------- case assembly
 
 func (w *World) Input() string {
-	return emit.Ctor("Hist", ClientsTerm(), w.PolicyTerm(), emit.List(w.Ops))
+	return emit.Ctor("Hist", w.ClientsTerm(), w.PolicyTerm(), emit.List(w.Ops))
 }
 
 func (w *World) PolicyTerm() string {
@@ -866,7 +938,7 @@ func (w *World) PolicyTerm() string {
 	if w.Policy.Subject != "" {
 		subj = emit.Some(emit.Str(w.Policy.Subject))
 	}
-	return emit.Ctor("TEPolicy", emit.Bool(!w.Policy.NoDefaultType), force, subj, emit.Bool(w.Policy.EmptyScopes))
+	return emit.Ctor("TEPolicy", emit.Bool(!w.Policy.NoDefaultType), force, subj, emit.Bool(w.Policy.EmptyScopes), emit.Bool(w.Policy.Verifier))
 }
 
 func (w *World) Observed() string { return emit.List(w.Outs) }
